@@ -18,6 +18,11 @@ Qed.
 Lemma map_fst_report : forall l b, map fst (report l b) = l.
 Proof. intros. unfold report. rewrite map_map. cbn. apply map_id. Qed.
 
+Lemma NoDup_app_tail : forall (a b : list N), NoDup (a ++ b) -> NoDup b.
+Proof.
+  induction a as [|x a IH]; intros b H; [exact H|]. cbn in H. inversion H; subst. apply IH. assumption.
+Qed.
+
 Lemma dsum_app : forall a b, dsum (a ++ b) = dsum a + dsum b.
 Proof.
   induction a as [|p a IH]; intros b; [reflexivity|].
@@ -442,4 +447,87 @@ Proof.
     + intros x Hx. destruct (Et x Hx) as [A1 A2]. split; [exact A1|]. intro Hw. left. exact (A2 Hw).
     + discriminate.
     + intros _. repeat split; auto.
+Qed.
+
+(* ------------------------------------------------------------------------------------------------ whole runs *)
+Lemma frun_ok : forall cap ops st,
+  finv cap st ->
+  finv cap (fst (frun cap st ops)) /\
+  exists new, f_regd (fst (frun cap st ops)) = f_regd st ++ new /\
+              map fst (snd (frun cap st ops)) ++ f_acks (fst (frun cap st ops)) = f_acks st ++ new.
+Proof.
+  intros cap ops. induction ops as [|op rest IH]; intros st I; cbn [frun].
+  - split; [exact I|]. exists []. cbn. rewrite !app_nil_r. split; reflexivity.
+  - destruct (fstep cap st op) as [[st1 rep] err] eqn:Hs.
+    pose proof (step_ok _ _ _ _ _ _ I Hs) as S. destruct S.
+    destruct (IH st1 ss_inv0) as [I2 [new [E1 E2]]].
+    destruct (frun cap st1 rest) as [st2 reps] eqn:Hr. cbn [fst snd] in *.
+    split; [exact I2|]. exists (new_regd st op ++ new).
+    split.
+    + rewrite E1, ss_regd0, app_assoc. reflexivity.
+    + rewrite map_app, <- app_assoc, E2, app_assoc, ss_fifo0, app_assoc. reflexivity.
+Qed.
+
+Lemma reachable_inv : forall cap ops, finv cap (fst (frun cap f_init ops)).
+Proof. intros. apply frun_ok, finv_init. Qed.
+
+(* (2) the requests are reported in the order they were stored, each exactly once; what has not been reported yet
+   is exactly the content of ackRequests *)
+Theorem flush_reports_fifo_once : forall cap ops,
+  let r := frun cap f_init ops in
+  map fst (snd r) ++ f_acks (fst r) = f_regd (fst r) /\ NoDup (f_regd (fst r)).
+Proof.
+  intros cap ops r. subst r.
+  destruct (frun_ok cap ops f_init (finv_init cap)) as [[G _] [new [E1 E2]]]. cbn [f_init f_regd f_acks app] in *.
+  split; [rewrite E1, E2; reflexivity|apply G].
+Qed.
+
+(* (1) guarded, (3) and "reported by the first flush": one operation from any reachable state *)
+Theorem flush_step_props : forall cap ops op st' rep err,
+  let st := fst (frun cap f_init ops) in
+  fstep cap st op = (st', rep, err) ->
+  (forall r, In (r, true) rep ->
+     In r (f_dmain st') /\
+     (In r (f_wants st') -> In r (f_ddata st') \/ (err = true /\ r = f_next st /\ appends_data op = true)))
+  /\ (f_open st = true -> err = true -> bufs_empty st')
+  /\ (is_flush_op op = true -> bufs_empty st').
+Proof.
+  intros cap ops op st' rep err st H.
+  pose proof (step_ok _ _ _ _ _ _ (reachable_inv cap ops) H) as S. destruct S. auto.
+Qed.
+
+(* (1) in the form "true means durable", for every operation that did not itself end in an error *)
+Theorem flush_true_durable : forall cap ops op st' rep,
+  let st := fst (frun cap f_init ops) in
+  fstep cap st op = (st', rep, false) -> forall r, In (r, true) rep -> durable st' r.
+Proof.
+  intros cap ops op st' rep st H r Hr.
+  destruct (flush_step_props cap ops op st' rep false H) as [T _]. destruct (T r Hr) as [A B].
+  split; [exact A|]. intro Hw. destruct (B Hw) as [D|[C _]]; [exact D|discriminate C].
+Qed.
+
+(* the buffers never overflow: windex < len(wbuf) after every operation, ackIndex <= windex/64, dwindex <= len(dwbuf) *)
+Theorem flush_buffers_in_range : forall cap ops,
+  let st := fst (frun cap f_init ops) in
+  (1 <= cap)%nat ->
+  (length (f_acks st) <= length (f_main st) < cap)%nat /\ dsum (f_data st) <= dcap cap.
+Proof.
+  intros cap ops st Hc. subst st.
+  destruct (flush_reports_fifo_once cap ops) as [E ND]. cbn zeta in E, ND.
+  destruct (reachable_inv cap ops) as [G [B1 B2]].
+  split; [split; [|exact (B1 Hc)]|exact B2].
+  apply NoDup_incl_length; [|apply G].
+  rewrite <- E in ND. exact (NoDup_app_tail _ _ ND).
+Qed.
+
+(* ------------------------------------------------------------------------------------------------ refutation *)
+(* (1) unguarded is FALSE for the current code: when the record that fills wbuf carries a value, WriteLock's own
+   Flush reports the request true BEFORE WriteLockData writes the value (unbuffered); that write may fail.
+   wbuf of one record, one require-ack record with an 8-byte value, the .dat write fails: *)
+Theorem flush_true_durable_refuted :
+  exists cap ops, let r := frun cap f_init ops in
+    exists x, In (x, true) (snd r) /\ In x (f_wants (fst r)) /\ ~ In x (f_ddata (fst r)).
+Proof.
+  exists 1%nat, [FAppend true (Some 8) WOk WOk (WFail 0)]. exists 0. vm_compute.
+  split; [left; reflexivity|]. split; [left; reflexivity|intros []].
 Qed.
